@@ -157,7 +157,9 @@ def main():
                    baseline_off_cmd="cd /repo && /venv/bin/python -m pytest -ra -q -p no:cacheprovider --timeout=900 --continue-on-collection-errors",
                    source_commits=[], add_only=True),
         engines=[dict(name="tlc", path="/opt/veriftools/tla/tla2tools.jar", serves_properties=sorted(CHECKS),
-                      kind_free_text="TLA+ specifications in /verif/spec checked by TLC: exhaustive model checking (MC_*.tla), batched trace validation of executions of the real code (*Trace.tla), replay of TLC-generated behaviours into the real code")],
+                      kind_free_text="TLA+ specifications in /verif/spec checked by TLC: exhaustive model checking (MC_*.tla), batched trace validation of executions of the real code (*Trace.tla), replay of TLC-generated behaviours into the real code"),
+                 dict(name="tlapm", path="/opt/veriftools/tlapm", serves_properties=["C01", "C02", "C03", "C07", "C08", "C12", "C13", "C15", "C17", "C20"],
+                      kind_free_text="TLA+ proof system (SMT back end): unbounded versions of single-operator laws in /verif/spec/proofs/Proofs.tla, run by the checks and reported under coverage.proofs; supplements, never decides")],
         checks=checks,
         notes="See DESIGN.md. run.py exit codes: 0 held / only known findings, 1 VIOLATION, 2 machinery failure.",
         not_applicable=na)
